@@ -64,19 +64,22 @@ def npmEntry (content : Text) (child : Node) : Option PkgInfo :=
 /-- `extract_packages_from_object` -/
 def npmPackagesOfObject (content : Text) (obj : Node) : List PkgInfo := obj.children.filterMap (npmEntry content)
 
+/-- one child of the root object (the body of the loop of `extract_dependencies`): the dependency object it
+    introduces, if its key is a dependency field and its value an object -/
+def npmSectionOf (content : Text) (child : Node) : Option Node :=
+  if child.kind != "pair" then none
+  else
+    match child.childByField "key" with
+    | none => none
+    | some k =>
+      if !strIn Generated.dependencyFields (unquoteDq (nodeText content k)) then none
+      else
+        match child.childByField "value" with
+        | some v => if v.kind == "object" then some v else none
+        | none => none
+
 /-- `extract_dependencies`: only pairs of the ROOT object whose key is a dependency field and whose value is an object -/
-def npmSections (content : Text) (root : Node) : List Node :=
-  root.children.filterMap fun child =>
-    if child.kind != "pair" then none
-    else
-      match child.childByField "key" with
-      | none => none
-      | some k =>
-        if !strIn Generated.dependencyFields (unquoteDq (nodeText content k)) then none
-        else
-          match child.childByField "value" with
-          | some v => if v.kind == "object" then some v else none
-          | none => none
+def npmSections (content : Text) (root : Node) : List Node := root.children.filterMap (npmSectionOf content)
 
 def packageJson (content : Text) (tree : Node) : List PkgInfo :=
   match tree.child0 with
@@ -101,18 +104,22 @@ def denoEntry (content : Text) (child : Node) : Option PkgInfo :=
 
 def denoPackagesOfImports (content : Text) (obj : Node) : List PkgInfo := obj.children.filterMap (denoEntry content)
 
-def denoSections (content : Text) (root : Node) : List Node :=
-  root.children.filterMap fun child =>
-    if child.kind != "pair" then none
-    else
-      match child.childByField "key" with
-      | none => none
-      | some k =>
-        if unquoteDq (nodeText content k) != "imports".toList then none
-        else
-          match child.childByField "value" with
-          | some v => if v.kind == "object" then some v else none
-          | none => none
+def importsKey : Text := "imports".toList
+
+/-- one child of the root object: the `imports` object, if this is it -/
+def denoSectionOf (content : Text) (child : Node) : Option Node :=
+  if child.kind != "pair" then none
+  else
+    match child.childByField "key" with
+    | none => none
+    | some k =>
+      if unquoteDq (nodeText content k) != importsKey then none
+      else
+        match child.childByField "value" with
+        | some v => if v.kind == "object" then some v else none
+        | none => none
+
+def denoSections (content : Text) (root : Node) : List Node := root.children.filterMap (denoSectionOf content)
 
 def denoJson (content : Text) (tree : Node) : List PkgInfo :=
   match tree.child0 with
